@@ -90,6 +90,12 @@ Theorem C16_every_site : forall s, In s all_sites -> check_site s = true.
 Proof. exact all_sites_ok. Qed.
 Print Assumptions C16_every_site.
 
+(* all_sites contains a dump through every public constructor of acnportal.acnsim.network.sites — the three
+   factories and the documented alias CaltechACN (simple_acn is a generic builder, not a predefined site) *)
+Theorem C16_all_constructors_dumped : unknown_site_constructors = O.
+Proof. exact all_constructors_dumped. Qed.
+Print Assumptions C16_all_constructors_dumped.
+
 (* All transformer capacities, whatever the factories' `voltage` argument: the limit formulas of
    the three factories (regenerated from the code, symbolic) are functions of the capacity ALONE
    (the generated definitions take no voltage parameter; for JPL the helper's literal default
